@@ -23,6 +23,7 @@ import (
 
 	apifu "github.com/ccbrown/api-fu"
 	"github.com/ccbrown/api-fu/graphql"
+	gschema "github.com/ccbrown/api-fu/graphql/schema"
 )
 
 type featKey struct{}
@@ -128,6 +129,7 @@ func buildAPI(spec *Spec, w *world) (*apifu.API, error) {
 	logger.SetOutput(io.Discard)
 	cfg := &apifu.Config{Features: featuresFromContext, Logger: logger, HandleGraphQLWSInit: wsInitHook,
 		PersistedQueryStorage: &pqStore{m: map[string]string{}}}
+	cfg.PreprocessGraphQLSchemaDefinition = preprocessHook(spec, def)
 	for name, f := range def.Query.Fields {
 		cfg.AddQueryField(name, f)
 	}
@@ -149,6 +151,61 @@ func buildAPI(spec *Spec, w *world) (*apifu.API, error) {
 		cfg.AddNamedType(t)
 	}
 	return apifu.NewAPI(cfg)
+}
+
+// preprocessHook is the API's PreprocessGraphQLSchemaDefinition hook. It registers the custom
+// directive definitions of def on the API's schema: apifu.Config fixes the directive map and hands the
+// hook a deep copy of the definition, so the argument types are re-pointed at the copy's named types (by
+// name: every type the harness builds is an AdditionalType, hence in the copy). With Spec.Staged == 2 it
+// is also where the named types get their RequiredFeatures (the definition was built without).
+func preprocessHook(spec *Spec, def *graphql.SchemaDefinition) func(sd *graphql.SchemaDefinition) error {
+	custom := map[string]*graphql.DirectiveDefinition{}
+	for name, d := range def.Directives {
+		if name != "skip" && name != "include" {
+			custom[name] = d
+		}
+	}
+	if len(custom) == 0 && spec.Staged != 2 {
+		return nil
+	}
+	return func(sd *graphql.SchemaDefinition) error {
+		byName := namedTypesOf(sd)
+		var remap func(t gschema.Type) (gschema.Type, error)
+		remap = func(t gschema.Type) (gschema.Type, error) {
+			switch t := t.(type) {
+			case *gschema.ListType:
+				in, err := remap(t.Type)
+				return gschema.NewListType(in), err
+			case *gschema.NonNullType:
+				in, err := remap(t.Type)
+				return gschema.NewNonNullType(in), err
+			case gschema.NamedType:
+				if nt := byName[t.TypeName()]; nt != nil {
+					return nt, nil
+				}
+				return nil, fmt.Errorf("directive argument type %s is not in the mounted schema", t.TypeName())
+			}
+			return nil, fmt.Errorf("unexpected type %T", t)
+		}
+		for name, d := range custom {
+			nd := *d
+			nd.Arguments = map[string]*graphql.InputValueDefinition{}
+			for an, a := range d.Arguments {
+				na := *a
+				nt, err := remap(a.Type)
+				if err != nil {
+					return err
+				}
+				na.Type = nt
+				nd.Arguments[an] = &na
+			}
+			sd.Directives[name] = &nd
+		}
+		if spec.Staged == 2 {
+			assignTypeReqs(spec, byName)
+		}
+		return nil
+	}
 }
 
 func canonResponse(raw []byte, q *query) string {
@@ -208,7 +265,7 @@ func serveHTTPPQ(api *apifu.API, w *world, features []string, q *query, mode int
 		}
 	}
 	body, _ := json.Marshal(payload)
-	ctx := context.WithValue(context.Background(), featKey{}, graphql.NewFeatureSet(features...))
+	ctx := context.WithValue(context.Background(), featKey{}, requestFeatures(features, w))
 	r, _ := http.NewRequestWithContext(ctx, "POST", "/graphql", bytes.NewReader(body))
 	r.Header.Set("Content-Type", "application/json")
 	rec := httptest.NewRecorder()
@@ -445,6 +502,14 @@ func (h *harness) checkAPI(spec *Spec, r interface {
 			for _, w := range []*world{fw, ew} {
 				w.respect, w.seed, w.overlap = respect, seed, overlap
 			}
+			// histories: a third of the requests reach an API that has already served the same request
+			// (plain and through the persisted-query extension) under other feature sets
+			var before [][]string
+			if len(feats) > 0 && r.Intn(3) == 0 {
+				before = drawHistory(intnRand{r}, subsets(feats), F)
+				warmUpAPI(full, fw, before, Fm, &q)
+				h.run.Count("api:history:requests-after-other-feature-sets")
+			}
 			a := serveHTTP(full, fw, F, &q)
 			b := serveHTTP(erased, ew, nil, &q)
 			what := compareOutcomes(origX, F, a, b)
@@ -459,7 +524,7 @@ func (h *harness) checkAPI(spec *Spec, r interface {
 			h.run.Count("api:http")
 			h.run.Oblige(obAPI, "oracle", 1, what == "", what)
 			if what != "" {
-				h.reportAPI(&Case{Spec: spec.clone(), F: F, Query: q, Respect: respect, Overlap: overlap, Seed: seed, Doc: q.doc}, "API/HTTP: "+what)
+				h.reportAPI(&Case{Spec: spec.clone(), F: F, Query: q, Respect: respect, Overlap: overlap, Seed: seed, Doc: q.doc, Before: before}, "API/HTTP: "+what)
 			}
 			// the same query through the persisted-query extension on S (Config.PersistedQueryStorage
 			// together with Config.Features): registering it (text + hash) and then asking for it by
@@ -478,7 +543,7 @@ func (h *harness) checkAPI(spec *Spec, r interface {
 					h.run.Count("api:http:persisted-query")
 					h.run.Oblige(obAPI, "oracle", 1, what == "", what)
 					if what != "" {
-						h.reportAPI(&Case{Spec: spec.clone(), F: F, Query: q, Respect: respect, Overlap: overlap, Seed: seed, Doc: q.doc, PQ: true}, "API/HTTP persisted query: "+what)
+						h.reportAPI(&Case{Spec: spec.clone(), F: F, Query: q, Respect: respect, Overlap: overlap, Seed: seed, Doc: q.doc, PQ: true, Before: before}, "API/HTTP persisted query: "+what)
 					}
 				}
 			}
@@ -515,7 +580,7 @@ func (h *harness) checkAPI(spec *Spec, r interface {
 					h.run.Oblige(obAPI, "oracle", 1, what == "", what)
 					if what != "" {
 						v := wsVar[vi]
-						h.reportAPI(&Case{Spec: spec.clone(), F: F, Query: q, Respect: respect, Overlap: overlap, Seed: seed, Doc: q.doc, WS: &v}, "API/WS ("+v.String()+"): "+what)
+						h.reportAPI(&Case{Spec: spec.clone(), F: F, Query: q, Respect: respect, Overlap: overlap, Seed: seed, Doc: q.doc, WS: &v, Before: before}, "API/WS ("+v.String()+"): "+what)
 					}
 				}
 			}
@@ -524,6 +589,29 @@ func (h *harness) checkAPI(spec *Spec, r interface {
 	}
 	return true
 }
+
+// warmUpAPI sends q to the API under each feature set of a history: over HTTP, plain and through the
+// persisted-query extension (register, then by hash).
+func warmUpAPI(api *apifu.API, w *world, before [][]string, Fm map[string]bool, q *query) {
+	for _, G := range before {
+		w.F = fset(G)
+		if o := serveHTTP(api, w, G, q); o.Panic == "" && q.Text != "" {
+			serveHTTPPQ(api, w, G, q, pqRegister)
+			serveHTTPPQ(api, w, G, q, pqHashOnly)
+		}
+	}
+	w.F = Fm
+}
+
+// intnRand adapts checkAPI's random source to drawHistory.
+type intnRand struct {
+	r interface {
+		Intn(int) int
+		Uint64() uint64
+	}
+}
+
+func (x intnRand) Intn(n int) int { return x.r.Intn(n) }
 
 func compareOutcomes(origX *Spec, F []string, a, b outcome) string {
 	if a.Panic != "" || b.Panic != "" {
